@@ -624,6 +624,8 @@ func gitEngine(c *Ctx) {
 				gitExec(c, op)
 			} else if strings.HasPrefix(op, "gitnet ") {
 				gitNetExec(c, op)
+			} else if strings.HasPrefix(op, "git-concurrent") {
+				gitConcurrent(c, op)
 			}
 		}
 		return
@@ -633,6 +635,7 @@ func gitEngine(c *Ctx) {
 		n = 120
 	}
 	gitNetExec(c, "gitnet 1")
+	gitConcurrent(c, "git-concurrent")
 	laters := []string{"none", "commit", "branch", "dirty", "detach"}
 	filts := []string{losslessUnpackStr, losslessUnpackStr, "uid=mine,gid=mine,mtime=follow,sticky=follow,setid=follow,dev=follow", "uid=5,gid=6,mtime=@99,sticky=follow,setid=follow,dev=follow"}
 	for k := 0; k < n; k++ {
@@ -645,4 +648,80 @@ func gitEngine(c *Ctx) {
 		}
 		gitExec(c, fmt.Sprintf("git %d %s %s", c.Rand()%100000, laters[k%len(laters)], f))
 	}
+}
+
+// gitConcurrent: two commits with many directories each, unpacked at the same time in one process (as a stitch of two git
+// inputs does): each destination equals what the same commit gives when unpacked alone. Recipe: "git-concurrent".
+func gitConcurrent(c *Ctx, op string) {
+	c.Begin(op)
+	gitCase++
+	base := filepath.Join(c.Work, fmt.Sprintf("gc%d", gitCase))
+	defer rmrf(base)
+	repo := filepath.Join(base, "repo")
+	os.MkdirAll(repo, 0755)
+	os.Setenv("RIO_CACHE", filepath.Join(base, "cache"))
+	os.Setenv("RIO_BASE", filepath.Join(base, "riobase"))
+	if _, err := gitCmd(repo, "init", "-q", "."); err != nil {
+		c.EmitR(op, "skip", "skip")
+		return
+	}
+	var commits []string
+	for k, pre := range []string{"alpha", "beta"} {
+		gitCmd(repo, "rm", "-rq", "--ignore-unmatch", ".")
+		for i := 0; i < 50; i++ {
+			d := filepath.Join(repo, fmt.Sprintf("%s%03d", pre, i), "nested")
+			os.MkdirAll(d, 0755)
+			os.WriteFile(filepath.Join(d, "f"), []byte(fmt.Sprintf("%s %d", pre, i)), 0644)
+			os.WriteFile(filepath.Join(filepath.Dir(d), "g"), []byte("g"), 0755)
+		}
+		gitCmd(repo, "add", "-A")
+		gitCmd(repo, "commit", "-q", "-m", fmt.Sprint(k))
+		h, _ := gitCmd(repo, "rev-parse", "HEAD")
+		commits = append(commits, strings.TrimSpace(h))
+	}
+	wh := []api.WarehouseLocation{api.WarehouseLocation("file://" + filepath.Join(repo, ".git"))}
+	uf := api.MustParseFilesetUnpackFilter(losslessUnpackStr)
+	unpack := func(commit, dst string) string {
+		id, err, pan := safeCall(func() (api.WareID, error) {
+			return gittrans.Unpack(context.Background(), api.WareID{Type: "git", Hash: commit}, dst, uf, rio.Placement_Direct, wh, rio.Monitor{})
+		})
+		return resTok(id, err, pan)
+	}
+	var alone [2]string
+	for k, cm := range commits {
+		d := filepath.Join(base, fmt.Sprintf("alone%d", k))
+		if r := unpack(cm, d); !strings.HasPrefix(r, "ok") {
+			c.EmitR(op, "skip", "skip")
+			return
+		}
+		sn, _ := Snapshot(d)
+		alone[k] = sn.Digest(true)
+	}
+	rounds := 3
+	if c.Tier == "thorough" {
+		rounds = 12
+	}
+	for r := 0; r < rounds; r++ {
+		var res [2]string
+		var wg sync.WaitGroup
+		for k := range commits {
+			wg.Add(1)
+			go func(k int) {
+				defer wg.Done()
+				res[k] = unpack(commits[k], filepath.Join(base, fmt.Sprintf("conc%d-%d", r, k)))
+			}(k)
+		}
+		wg.Wait()
+		for k := range commits {
+			d := filepath.Join(base, fmt.Sprintf("conc%d-%d", r, k))
+			if !strings.HasPrefix(res[k], "ok") {
+				c.PropFail("git-unpack-failed", fmt.Sprintf("two git unpacks ran at the same time; the one of commit %d answered %s (alone it succeeds)", k, res[k]), op)
+			} else if sn, _ := Snapshot(d); sn.Digest(true) != alone[k] {
+				c.PropFail("git-content", fmt.Sprintf("two git unpacks ran at the same time; the tree of commit %d differs from what the same commit unpacks to alone", k), op)
+			}
+			rmrf(d)
+		}
+	}
+	c.H("git-concurrent")
+	c.EmitR(op, "skip", "skip")
 }
